@@ -34,6 +34,11 @@ def systems():
     con = S.DenseConstrainedEuclideanMetricSystem(nld, lambda q: np.array([q @ q - 1.0]), grad_neg_log_dens=grad,
                                                   jacob_constr=lambda q: 2 * q[None, :])
     out.append(("constrained", con, ["con1", "con3", "conq", "conl"]))
+    # density w.r.t. the Lebesgue measure on a curved constraint with a varying Gram determinant: h1 includes 1/2 log det G
+    hd = np.array([0.5, 2.0, 0.0])
+    con2 = S.DenseConstrainedEuclideanMetricSystem(lambda q: 0.25 * np.sum(q**4), lambda q: np.array([q[0] ** 2 / 4 + q[1] ** 2 - 1.0]), grad_neg_log_dens=lambda q: q**3,
+                                                   dens_wrt_hausdorff=False, jacob_constr=lambda q: np.array([[q[0] / 2, 2 * q[1], 0.0]]), mhp_constr=lambda q: (lambda m: m[0] * hd))
+    out.append(("constrained-lebesgue-ellipsoid", con2, ["con1", "con3"]))
     return out
 
 
@@ -72,6 +77,9 @@ def main():
                         if name == "constrained":
                             q = np.array([0.6, 0.8])
                             p = sysm.project_onto_cotangent_space(np.array([0.5, -0.2]), ChainState(pos=q, mom=None, dir=1))
+                        elif name == "constrained-lebesgue-ellipsoid":
+                            q = np.array([2 * np.cos(0.7), np.sin(0.7), 0.3])
+                            p = sysm.project_onto_cotangent_space(np.array([0.5, -0.2, 0.3]), ChainState(pos=q, mom=None, dir=1))
                         else:
                             q, p = np.array([0.3, -0.8]), np.array([0.9, 0.4])
                         integ = make(kind, sysm, eps)
